@@ -168,7 +168,9 @@ GRAPHS = {
     "chain": directed.prog(DS(2), d1={"args": [["a", O("A", dk="const", dv=0)]]}, d2={"args": [["x", DS(1)], ["b", O("B", dk="const", dv=0)]], "callback": "c1"}),
     "diamond": directed.prog(DS(4), d1={"args": [["a", O("A", dk="const", dv=0)]]}, d2={"args": [["x", DS(1)]]}, d3={"args": [["x", DS(1)], ["b", O("B", dk="const", dv=0)]]},
                              d4={"args": [["l", DS(2)], ["r", DS(3)]]}),
-    "overload": directed.prog(DS(1), d1={"args": [["a", O("A", dk="const", dv=0)]], "dispatch": "D", "overloads": [["x", {"args": [["b", O("B", dk="const", dv=1)]]}], ["y", {"expr": O("A", dk="const", dv="ya")}]]}),
+    "overload": directed.prog(DS(1), d1={"args": [["a", O("A", dk="const", dv=0)]], "dispatch": "D", "overloads": [["x", {"args": [["b", O("B", dk="const", dv=1)]]}], ["y", {"expr": O("A", dk="const", dv="ya")}],
+                                                                                                                    # (aliases need only be hashable: mixed types cannot be ordered)
+                                                                                                                    [3, {"expr": O("B", dk="const", dv="three")}], [None, {"expr": O("A", dk="const", dv="none-alias")}]]}),
     "cached-node": directed.prog({"k": "cached", "spec": {"k": "tuple", "items": [O("A", dk="const", dv=0), DS(1)]}}, d1={"args": [["b", O("B", dk="const", dv=0)]]}),
     # evaluations that cannot be built for some dictionaries: a lying exists() must not turn a fall-back into a failure
     "fallback": directed.prog(DS(2), d1={"args": [["a", O("A")]]},
@@ -180,7 +182,7 @@ FAILING = ("fallback", "required")
 HISTORIES = [
     [{"A": 1}, {"A": 1}, {"A": 2}, {"A": 1}],
     [{}, {"A": 1, "B": 2}, {}, {"A": 1, "B": 2}, {"B": 2}],
-    [{"D": "x"}, {"D": "y"}, {"D": "x", "B": 5}, {"D": "x"}, {"D": "z"}, {"D": "y"}],
+    [{"D": "x"}, {"D": "y"}, {"D": "x", "B": 5}, {"D": 3}, {"D": "z"}, {"D": None}],
     [{"B": 5}, {"A": 1}, {"B": 5}, {}, {"A": 1, "B": 2}, {"B": 5}],
 ]
 
